@@ -641,8 +641,9 @@ class _SpinSymMixin(_IndexMixin):
         k = k[:, :NY] + k[:, NY:]
         dk = dk[:, :NY] + dk[:, NY:]
         dkfull = np.zeros((NX, NY, Nfeat))
-        dkfull[:, :, self.alpha_ind] = dk[:NX]
-        dkfull[:, :, self.beta_ind] = dk[NX:]
+        # accumulate, since a column can be in both alpha_ind and beta_ind
+        dkfull[:, :, self.alpha_ind] += dk[:NX]
+        dkfull[:, :, self.beta_ind] += dk[NX:]
         self._locked = False
         return k, dkfull
 
